@@ -1,9 +1,12 @@
 package kernel
 
 import (
+	"bufio"
+	"bytes"
 	"errors"
 	"fmt"
 	"io"
+	"strings"
 )
 
 // Fault-injecting entropy device (an io.Reader).  Its whole behaviour is
@@ -68,7 +71,19 @@ type DevCfg struct {
 	// for an io.Reader; it matters to a caller whose buffer is not where the
 	// runtime believes it is.
 	Helper bool `json:"helper,omitempty"`
+
+	// Std > 0: the caller does not see a reader type of the simulator's own
+	// but one of the standard library's in-memory readers, holding the bytes
+	// the device would deliver before it fails (at most 64; a device that
+	// fails at byte j becomes a reader that ends after j bytes): 1
+	// *bytes.Buffer, 2 *bytes.Reader, 3 *strings.Reader, 4 a *bufio.Reader
+	// around a *bytes.Reader.  A library may special-case concrete reader
+	// types; the interface contract is the same.  Chunks are ignored.
+	Std int `json:"std,omitempty"`
 }
+
+// StdKinds is the number of values Std takes (0 = the device itself).
+const StdKinds = 5
 
 // Healthy returns the configuration of a healthy device.
 func Healthy(seed uint64) DevCfg { return DevCfg{Payload: PayPRNG, Seed: seed, ErrAt: -1} }
@@ -88,6 +103,9 @@ type Device struct {
 	Bytes     []byte // everything delivered so far
 	Yield     func() // optional: called at the start of every Read (scheduler hook)
 	StackSink int    // keeps growStack's result alive
+
+	stdData []byte
+	stdLeft func() int
 
 	chunkPos int
 	failed   bool
@@ -117,6 +135,55 @@ func (d *Device) MaxEmptyRun() int {
 // must sit through (the io package's own loops do); beyond it, giving up
 // WITH AN ERROR is counted, not reported.
 const PatienceBound = 3
+
+// Reader is what the caller hands to the library: the device, or (Std > 0)
+// a standard-library reader holding its bytes.  Settle must be called after
+// the library call.
+func (d *Device) Reader() io.Reader {
+	if d.Cfg.Std == 0 {
+		return d
+	}
+	n := 64
+	if d.Cfg.ErrAt >= 0 && d.Cfg.ErrAt < n {
+		n = d.Cfg.ErrAt
+	}
+	d.stdData = make([]byte, n)
+	for i := range d.stdData {
+		d.stdData[i] = d.byteAt(i)
+	}
+	switch d.Cfg.Std {
+	case 1:
+		b := bytes.NewBuffer(append([]byte(nil), d.stdData...))
+		d.stdLeft = b.Len
+		return b
+	case 2:
+		b := bytes.NewReader(append([]byte(nil), d.stdData...))
+		d.stdLeft = b.Len
+		return b
+	case 3:
+		b := strings.NewReader(string(d.stdData))
+		d.stdLeft = b.Len
+		return b
+	default:
+		inner := bytes.NewReader(append([]byte(nil), d.stdData...))
+		b := bufio.NewReaderSize(inner, 16)
+		d.stdLeft = func() int { return inner.Len() + b.Buffered() }
+		return b
+	}
+}
+
+// Settle brings the device's counters up to date after a call that read
+// from a standard-library reader: how many bytes the library took.
+func (d *Device) Settle() {
+	if d.stdLeft == nil {
+		return
+	}
+	took := len(d.stdData) - d.stdLeft()
+	d.Delivered = took
+	d.Bytes = append([]byte(nil), d.stdData[:took]...)
+	d.Log = []ReadRec{{Req: took, N: took}}
+	d.stdLeft = nil
+}
 
 // NewDevice returns a device for cfg.
 func NewDevice(cfg DevCfg) *Device { return &Device{Cfg: cfg} }
@@ -283,6 +350,9 @@ func (c DevCfg) Summary() string {
 	s := pay
 	if len(c.Chunks) > 0 {
 		s += fmt.Sprintf(" chunks=%v", c.Chunks)
+	}
+	if c.Std > 0 {
+		s += " presented-as-" + [...]string{"", "*bytes.Buffer", "*bytes.Reader", "*strings.Reader", "*bufio.Reader(*bytes.Reader)"}[c.Std%StdKinds]
 	}
 	if c.Helper {
 		s += " filled-by-helper-goroutine+stack-move"
